@@ -29,8 +29,8 @@ def dispatch (op : String) : Option (List String → String → Res) :=
   | "bwget" => some hBwGet | "bwfirstdiff" => some hBwFirstDiff | "bwstrs" => some hBwStrs
   | "fdb" => some hFdb | "countprefixes" => some hCountPrefixes | "shard" => some hShard
   | "sw" => some hSw | "atw" => some hAtw
-  | "pbm" => some hPbMarshal | "pbs" => some hPbStream | "pbraw" => some hPbRaw | "pbh" => some hPbHeader
-  | "sizeof" => some hSizeOf
+  | "pbmk" => some hPbMarshal | "pbrt" => some hPbRt | "pbs" => some hPbStream | "pbraw" => some hPbRaw | "pbh" => some hPbHeader
+  | "sizeofgen" => some hSizeOf | "sizeofnamed" => some hSizeOf
   | _ => none
 
 def answer (line : String) : String :=
